@@ -140,10 +140,16 @@ impl Prop for C01 {
         }
         // flat floods: tens of thousands of repetitions of one unit with no nesting at all (see `check`: these are
         // parsed on a thread with an ordinary 8 MiB stack)
+        let mut floods = vec![];
         for (prefix, unit, suffix) in FLOODS {
             for n in [20_000usize, 50_000] {
-                v.push(TextCase { src: format!("{}{}{}", prefix, unit.repeat(n), suffix) });
+                floods.push(TextCase { src: format!("{}{}{}", prefix, unit.repeat(n), suffix) });
             }
+        }
+        // spread over the whole list (the list is cut into one contiguous chunk per thread)
+        let step = v.len() / (floods.len() + 1);
+        for (k, f) in floods.into_iter().enumerate().rev() {
+            v.insert((k + 1) * step, f);
         }
         (v, true)
     }
@@ -180,6 +186,19 @@ impl Prop for C01 {
         // the process; the driver's post-mortem then names the case.
         let r = if src.len() > 65_536 && nesting_depth(&src) <= 50 {
             labels.push("long_flat_text_on_8MiB_stack".into());
+            // ... and by the real tool (`rrss parse`), which in the dev profile is a build without any optimisation
+            match super::c20::tool_dies_parsing(&src) {
+                Ok(Some(how)) => {
+                    return Outcome::fail(format!(
+                        "`rrss parse` {} on a text of {} bytes without any nesting (first 200 bytes: {:?})",
+                        how,
+                        src.len(),
+                        src.chars().take(200).collect::<String>()
+                    ))
+                }
+                Ok(None) => labels.push("long_flat_text_through_the_tool".into()),
+                Err(why) => labels.push(format!("tool_leg_skipped:{}", why)),
+            }
             let s2 = src.clone();
             std::thread::Builder::new().stack_size(8 << 20).spawn(move || parse(&s2)).expect("spawn").join().expect("flat-text thread")
         } else {
